@@ -321,7 +321,10 @@ def check_c08(pid, tier, seed, res, work):
         ctx_kind = ['copies', 'fragments', 'malformed', 'unreadable_file', 'unreadable_dir', 'dangling_symlink', 'decoys', 'callers', 'dir_symlinks', 'file_symlinks', 'same_names', 'crowd', 'changing'][i % 13]
         ctx = []
         if ctx_kind == 'copies':
-            ctx = [('src/Copy.java', F[1]), ('other/Target%d.java' % i, F[1])]
+            # ... also under names that differ from the target's only by a backslash for a slash (a legal file name
+            # here), by case, by a trailing blank or dot in a directory name
+            ctx = [('src/Copy.java', F[1]), ('other/Target%d.java' % i, F[1]), ('src\\Target%d.java' % i, F[1]), ('SRC/Target%d.java' % i, F[1]), ('src /Target%d.java' % i, F[1]),
+                   ('src./Target%d.java' % i, F[1]), ('src/target%d.java' % i, F[1])]
         elif ctx_kind == 'fragments':
             t2, _, _ = javagen.gen_unit(seed + 1300, i + 1, size=0.6)
             ctx = [('src/Other.java', t2.encode() + F[1][:len(F[1]) // 2])]
